@@ -43,14 +43,14 @@ var c05InitVecs = []c05InitVec{
 		cKey:         "1f369613dd76d5467730efcbe3b1a22d", cIV: "fa044b2f42a3fd3b46fb255c", cHP: "9f50449e04a0e810283a1e9933adedd2",
 		serverSecret: "3c199828fd139efd216c155ad844cc81fb82fa8d7446fa7d78be803acdda951b",
 		sKey:         "cf3a5331653c364c88f0f379b6067e37", sIV: "0ac1493ca1905853b0bba03e", sHP: "c206b8d9b9f0f37644430b490eeaa314",
-		clientHdr:    "c300000001088394c8f03e5157080000449e00000002", clientSample: "d1b1c98dd7689fb8ec11d242b123dc9b", clientMask: "037b9aec36",
+		clientHdr: "c300000001088394c8f03e5157080000449e00000002", clientSample: "d1b1c98dd7689fb8ec11d242b123dc9b", clientMask: "037b9aec36",
 		clientProtHdr: "c000000001088394c8f03e5157080000449e7b9aec34", clientPacketSHA256: "73fa0210cb4a5a17dc10b9dc98e5cc359ba1c20fe7c0e93a9e1dcb473c37e097",
-		serverHdr:     "c1000000010008f067a5502a4262b50040750001", serverSample: "2cd0991cd25b0aac406a5816b6394100",
-		serverPkt:     "cf000000010008f067a5502a4262b5004075c0d95a482cd0991cd25b0aac406a5816b6394100f37a1c69797554780bb38cc5a99f5ede4cf73c3ec2493a1839b3dbcba3f6ea46c5b7684df3548e7ddeb9c3bf9c73cc3f3bded74b562bfb19fb84022f8ef4cdd93795d77d06edbb7aaf2f58891850abbdca3d20398c276456cbc42158407dd074ee",
-		retry:         "ff000000010008f067a5502a4262b5746f6b656e04a265ba2eff4d829058fb3f0f2496ba",
-		chachaKey:     "c6d98ff3441c3fe1b2182094f69caa2ed4b716b65488960a7a984979fb23e1c8", chachaIV: "e0459b3474bdd0e44a41c144",
-		chachaHP:      "25a282b9e82f06f21f488917a4fc8f1b73573685608597d0efcb076b0ab7a7a4", chaKU: "1223504755036d556342ee9361d253421a826c9ecdf3c7148684b36b714881f9",
-		chachaPacket:  "4cfe4189655e5cd55c41f69080575d7999c25a5bfb",
+		serverHdr: "c1000000010008f067a5502a4262b50040750001", serverSample: "2cd0991cd25b0aac406a5816b6394100",
+		serverPkt: "cf000000010008f067a5502a4262b5004075c0d95a482cd0991cd25b0aac406a5816b6394100f37a1c69797554780bb38cc5a99f5ede4cf73c3ec2493a1839b3dbcba3f6ea46c5b7684df3548e7ddeb9c3bf9c73cc3f3bded74b562bfb19fb84022f8ef4cdd93795d77d06edbb7aaf2f58891850abbdca3d20398c276456cbc42158407dd074ee",
+		retry:     "ff000000010008f067a5502a4262b5746f6b656e04a265ba2eff4d829058fb3f0f2496ba",
+		chachaKey: "c6d98ff3441c3fe1b2182094f69caa2ed4b716b65488960a7a984979fb23e1c8", chachaIV: "e0459b3474bdd0e44a41c144",
+		chachaHP: "25a282b9e82f06f21f488917a4fc8f1b73573685608597d0efcb076b0ab7a7a4", chaKU: "1223504755036d556342ee9361d253421a826c9ecdf3c7148684b36b714881f9",
+		chachaPacket: "4cfe4189655e5cd55c41f69080575d7999c25a5bfb",
 	},
 	{ // RFC 9369 Appendix A
 		version:      protocol.Version2,
@@ -58,14 +58,14 @@ var c05InitVecs = []c05InitVec{
 		cKey:         "8b1a0bc121284290a29e0971b5cd045d", cIV: "91f73e2351d8fa91660e909f", cHP: "45b95e15235d6f45a6b19cbcb0294ba9",
 		serverSecret: "0263db1782731bf4588e7e4d93b7463907cb8cd8200b5da55a8bd488eafc37c1",
 		sKey:         "82db637861d55e1d011f19ea71d5d2a7", sIV: "dd13c276499c0249d3310652", sHP: "edf6d05c83121201b436e16877593c3a",
-		clientHdr:    "d36b3343cf088394c8f03e5157080000449e00000002", clientSample: "ffe67b6abcdb4298b485dd04de806071", clientMask: "04a0c95e80",
+		clientHdr: "d36b3343cf088394c8f03e5157080000449e00000002", clientSample: "ffe67b6abcdb4298b485dd04de806071", clientMask: "04a0c95e80",
 		clientProtHdr: "d76b3343cf088394c8f03e5157080000449ea0c95e82", clientPacketSHA256: "b0b766fe7e762577072d3365cc4f9635809210cba301a67f8457f5e6fdac5c68",
-		serverHdr:     "d16b3343cf0008f067a5502a4262b50040750001", serverSample: "6f05d8a4398c47089698baeea26b91eb",
-		serverPkt:     "dc6b3343cf0008f067a5502a4262b5004075d92faaf16f05d8a4398c47089698baeea26b91eb761d9b89237bbf87263017915358230035f7fd3945d88965cf17f9af6e16886c61bfc703106fbaf3cb4cfa52382dd16a393e42757507698075b2c984c707f0a0812d8cd5a6881eaf21ceda98f4bd23f6fe1a3e2c43edd9ce7ca84bed8521e2e140",
-		retry:         "cf6b3343cf0008f067a5502a4262b5746f6b656ec8646ce8bfe33952d955543665dcc7b6",
-		chachaKey:     "3bfcddd72bcf02541d7fa0dd1f5f9eeea817e09a6963a0e6c7df0f9a1bab90f2", chachaIV: "a6b5bc6ab7dafce30ffff5dd",
-		chachaHP:      "d659760d2ba434a226fd37b35c69e2da8211d10c4f12538787d65645d5d1b8e2", chaKU: "c69374c49e3d2a9466fa689e49d476db5d0dfbc87d32ceeaa6343fd0ae4c7d88",
-		chachaPacket:  "5558b1c60ae7b6b932bc27d786f4bc2bb20f2162ba",
+		serverHdr: "d16b3343cf0008f067a5502a4262b50040750001", serverSample: "6f05d8a4398c47089698baeea26b91eb",
+		serverPkt: "dc6b3343cf0008f067a5502a4262b5004075d92faaf16f05d8a4398c47089698baeea26b91eb761d9b89237bbf87263017915358230035f7fd3945d88965cf17f9af6e16886c61bfc703106fbaf3cb4cfa52382dd16a393e42757507698075b2c984c707f0a0812d8cd5a6881eaf21ceda98f4bd23f6fe1a3e2c43edd9ce7ca84bed8521e2e140",
+		retry:     "cf6b3343cf0008f067a5502a4262b5746f6b656ec8646ce8bfe33952d955543665dcc7b6",
+		chachaKey: "3bfcddd72bcf02541d7fa0dd1f5f9eeea817e09a6963a0e6c7df0f9a1bab90f2", chachaIV: "a6b5bc6ab7dafce30ffff5dd",
+		chachaHP: "d659760d2ba434a226fd37b35c69e2da8211d10c4f12538787d65645d5d1b8e2", chaKU: "c69374c49e3d2a9466fa689e49d476db5d0dfbc87d32ceeaa6343fd0ae4c7d88",
+		chachaPacket: "5558b1c60ae7b6b932bc27d786f4bc2bb20f2162ba",
 	},
 }
 
@@ -205,7 +205,13 @@ func c05VectorCase(i int) explore.CaseResult {
 		sec := c05Hex(c05VecChaSecret)
 		ku := ref5.NextGeneration(sec, rv, ref5.TLS_CHACHA20_POLY1305_SHA256)
 		explore.Must(eq(ku, vec.chaKU), "ref5.NextGeneration fails the %s 'ku' vector: %x", vn, ku)
-		return explore.CaseResult{Outcome: "ku secret " + vn + ": reference ok"}
+		// the implementation's derivation of the next generation's secret (same finding key as part "ku-derive")
+		a := newUpdatableAEAD(utils.NewRTTStats(), nil, utils.DefaultLogger, v)
+		if rku := a.getNextTrafficSecret(getCipherSuite(ref5.TLS_CHACHA20_POLY1305_SHA256).Hash, sec); !eq(rku, vec.chaKU) {
+			return explore.CaseResult{Outcome: "MISMATCH ku secret " + vn, Replay: i + 1,
+				Fail: explore.Failf("keyupdate-derivation:version="+vn, "updatableAEAD.getNextTrafficSecret(%s) for QUIC %s = %x, the RFC test vector (RFC 9001 A.5 / RFC 9369 A.5, label %q) is %s", c05VecChaSecret, vn, rku, map[bool]string{false: "quic ku", true: "quicv2 ku"}[v == protocol.Version2], vec.chaKU)}
+		}
+		return explore.CaseResult{Outcome: "ku secret " + vn + ": ref ok, impl ok"}
 	}
 	return explore.CaseResult{}
 }
